@@ -74,3 +74,98 @@ instance decChain : (ts : List TSpan) → Decidable (Chain ts)
     exact inferInstance
 
 end Tranp.Hull
+
+/-! ## Derivation from the text: positions by own line/column arithmetic, trees as token intervals
+
+  What is assumed about lark is now only the *interface* of an LALR parse with `propagate_positions`:
+
+  * the lexer hands out tokens left to right: offsets `start ≤ end ≤ next start` (`OffChain`);
+    (the synthetic _INDENT/_DEDENT tokens, which borrow the offsets of the preceding _NEWLINE, are left out);
+  * a tree consumes a contiguous interval `[lo, hi)` of that token sequence and its children (kept tokens and
+    sub-trees) consume sub-intervals, in order, without overlap (`ITree.WF`);
+  * the span recorded for a tree is (begin of its first, end of its last consumed token), a position being the
+    (line, column) of an offset of the parsed text (`ITree.span`, `posOf`).
+
+  All three are checked against lark's actual token stream and metas by the `span-hull` stream; nesting and sibling order
+  are *proved* from them (Props/C16.lean `span_nest`, `span_siblings`), including `posOf` being monotone.
+-/
+
+namespace Tranp.Hull
+open Tranp
+
+/-- lark's `LineCounter.feed`, one character at a time: a line feed starts a new line at column 1 -/
+def advance (p : P) (c : Char) : P :=
+  if c = '\n' then ⟨p.line + 1, 1⟩ else ⟨p.line, p.col + 1⟩
+
+/-- position after reading `n` characters of `s` starting at position `p` -/
+def posFrom (p : P) : Str → Nat → P
+  | _, 0 => p
+  | [], _ + 1 => p
+  | c :: cs, n + 1 => posFrom (advance p c) cs n
+
+/-- (line, column), both 1-based, of the character offset `off` of `src` -/
+def posOf (src : Str) (off : Nat) : P := posFrom ⟨1, 1⟩ src off
+
+/-- the positions of all offsets `0 … len` in one pass (what the driver tabulates; `posScan_get` ties it to `posFrom`) -/
+def posScan (p : P) : Str → List P
+  | [] => [p]
+  | c :: cs => p :: posScan (advance p c) cs
+
+/-- a lexer token by its character offsets (`start_pos`, `end_pos`) -/
+structure OTok where
+  s : Nat
+  e : Nat
+deriving DecidableEq, Repr
+
+def tokSpan (src : Str) (t : OTok) : TSpan := ⟨posOf src t.s, posOf src t.e⟩
+
+/-- tokens come left to right and do not overlap -/
+def OffChain : List OTok → Prop
+  | [] => True
+  | [a] => a.s ≤ a.e
+  | a :: b :: rest => a.s ≤ a.e ∧ a.e ≤ b.s ∧ OffChain (b :: rest)
+
+instance decOffChain : (ts : List OTok) → Decidable (OffChain ts)
+  | [] => isTrue trivial
+  | [a] => by unfold OffChain; exact inferInstance
+  | a :: b :: rest => by
+    unfold OffChain
+    have := decOffChain (b :: rest)
+    exact inferInstance
+
+/-- a parse tree as the interval of tokens it consumed, with the intervals of its children (kept tokens and sub-trees that
+    consumed at least one token) -/
+inductive ITree where
+  | node (lo hi : Nat) (children : List ITree)
+deriving Repr, Inhabited
+
+def ITree.lo : ITree → Nat
+  | .node lo _ _ => lo
+def ITree.hi : ITree → Nat
+  | .node _ hi _ => hi
+def ITree.children : ITree → List ITree
+  | .node _ _ cs => cs
+
+/-- children lie inside `[lo, hi)`, in order, without overlap, each non-empty -/
+def childrenOrdered (lo hi : Nat) : List ITree → Bool
+  | [] => lo ≤ hi
+  | c :: cs => lo ≤ c.lo && c.lo < c.hi && childrenOrdered c.hi hi cs
+
+mutual
+/-- the interface hypothesis, at every depth -/
+def ITree.wf : ITree → Bool
+  | .node lo hi cs => lo < hi && childrenOrdered lo hi cs && ITree.wfList cs
+def ITree.wfList : List ITree → Bool
+  | [] => true
+  | c :: cs => c.wf && ITree.wfList cs
+end
+
+/-- the span lark records for a tree that consumed the tokens `[lo, hi)` of `spans` -/
+def spanOf (spans : List TSpan) (lo hi : Nat) : Option TSpan :=
+  match spans[lo]?, spans[hi - 1]? with
+  | some f, some l => if lo < hi then some ⟨f.b, l.e⟩ else none
+  | _, _ => none
+
+def ITree.span (spans : List TSpan) (t : ITree) : Option TSpan := spanOf spans t.lo t.hi
+
+end Tranp.Hull
